@@ -44,12 +44,14 @@ PredBegin == BeginS(st, H, Range(ev'.begin.absent), ev'.begin.evidence, Cfg)
 Conf_Begin ==
    Clause("DRIFT", "StakingModelPredictsBeginBlock", BeginCovered, BlockDiff(PredBegin, st', StakeFields) = {},
           [at |-> Where, differs |-> BlockDiff(PredBegin, st', StakeFields)])
+KeyChanged == \E p \in DOMAIN st.cands : \E q \in DOMAIN disk.cands : disk.cands[q].id = st.cands[p].id /\ q # p
 NoVotesNow == VotesAt(st.updVotes, H) = <<>> /\ VotesAt(st.commVotes, H) = <<>>
 NoLockedOwner == \A p \in DOMAIN st.cands : \A x \in Range(st.cands[p].stakes) : LockOf(st, x.o) <= H
 EndCovered == /\ IsKind("EndBlock") /\ NoPanic /\ "st" \in DOMAIN ev' /\ ~hist.imported /\ ~hist.synced
-              /\ AllStakesBase(st) /\ SmallCands(st) /\ NoVotesNow
+              /\ SmallCands(st) /\ NoVotesNow
+              \* stakes in other coins need the bancor valuation only when stakes are recalculated (payout, dropped validator, key change)
+              /\ (AllStakesBase(st) \/ ~(IsPayout \/ KeyChanged \/ \E v \in Range(st.vals) : v.toDrop))
               /\ (IsPayout => NoLockedOwner)
-KeyChanged == \E p \in DOMAIN st.cands : \E q \in DOMAIN disk.cands : disk.cands[q].id = st.cands[p].id /\ q # p
 PredEnd == EndS(st, H, hist.present, Cfg, hist.unit, hist.cap, KeyChanged, disk.orders)
 Conf_End ==
    Clause("DRIFT", "StakingModelPredictsEndBlock", EndCovered, BlockDiff(PredEnd, st', StakeFields \cup {"emission", "orders"}) = {},
